@@ -47,6 +47,25 @@ Theorem C17_update_equals_rescan :
     /\ (will_change keqb mv old deleted added = None <-> results_eqb keqb old (scan keqb mv fs') = true).
 Proof. exact update_equals_rescan. Qed.
 
+(* (1') The same law for scans that only look at a candidate list, which is what
+   NamedGlob.glob() does with the result of glob.iglob: it holds whenever, before and after the
+   change, the candidates contain exactly the existing paths as far as accepted paths are concerned
+   (candidates complete and sound for the matcher).  That hypothesis is clause 2 of C17_full; the
+   refutations below are exactly the ways in which the current code violates it. *)
+Theorem C17_update_equals_rescan_candidates :
+  forall (K : Type) (keqb : K -> K -> bool), (forall a b, keqb a b = true <-> a = b) ->
+  forall (mv : str -> option K) (fs fs' cands cands' added deleted : list str),
+    (forall q, mv q <> None -> (In q cands <-> In q fs)) ->
+    (forall q, mv q <> None -> (In q cands' <-> In q fs')) ->
+    (forall p, In p added -> In p fs') ->
+    (forall p, In p deleted -> ~ In p fs') ->
+    (forall p, mv p <> None -> (In p fs' <-> (In p fs /\ ~ In p deleted) \/ In p added)) ->
+    let old := scan keqb mv cands in
+    let upd := reduce keqb mv (extend keqb mv old added) deleted in
+    results_eqb keqb upd (scan keqb mv cands') = true
+    /\ (will_change keqb mv old deleted added = None <-> results_eqb keqb old (scan keqb mv cands') = true).
+Proof. exact update_equals_rescan_candidates. Qed.
+
 (* The key type of the implementation (tuple of optional strings) has such an equality. *)
 Theorem C17_key_equality_decides : forall a b : key, key_eqb a b = true <-> a = b.
 Proof. exact key_eqb_spec. Qed.
@@ -175,6 +194,13 @@ Theorem C17_empty_component_accepted_refuted :
      recorded t p subs = Some [] /\ accepted_existing t p subs = Some [path]
      /\ nglob_ref false p subs path = Some false /\ p = [100;47;42;42;47;42]).
 Proof. exact empty_component_accepted_both_refuted. Qed.
+
+(* third trigger: `a${*n}/${*n}` accepts "a/" with n = "" *)
+Theorem C17_empty_component_backref_refuted :
+  exists t p subs path,
+    recorded t p subs = Some [] /\ accepted_existing t p subs = Some [path]
+    /\ nglob_ref false p subs path = Some false.
+Proof. exact empty_component_backref_refuted. Qed.
 
 (* `d/**` does not record a file whose name contains a newline *)
 Theorem C17_newline_not_matched_refuted :
